@@ -97,7 +97,7 @@ AX_RE = re.compile(r"'([^']+)' depends on axioms: \[([^\]]*)\]")
 NOAX_RE = re.compile(r"'([^']+)' does not depend on any axioms")
 
 
-def audit_property_module(pid, expected):
+def audit_property_module(pid, expected, recheck=False):
     """Build Properties/<pid> (re-elaborating it so that `#print axioms` output is
     produced), check the listed theorems are present with allowed axioms, and that
     no forbidden construct occurs in any non-generated Lean source.
@@ -119,6 +119,11 @@ def audit_property_module(pid, expected):
         # `lake env lean` re-elaborates the property file itself (imports are built), giving
         # the axiom report even when lake had the module cached.
         r2 = run(["lake", "env", "lean", path], cwd=LEAN, timeout=3600)
+        if recheck:
+            # thorough tier: Lean's independent re-checker replays the compiled module through the kernel
+            r3 = run(["lake", "env", "leanchecker", mod], cwd=LEAN, timeout=3600)
+            if r3.returncode != 0:
+                raise Broken(f"leanchecker rejects {mod}:\n" + (r3.stdout + r3.stderr)[-3000:])
     out = r2.stdout + r2.stderr
     if r2.returncode != 0:
         raise Broken(f"{mod} does not elaborate:\n" + out[-4000:])
